@@ -189,7 +189,11 @@ func genC16(t *Tape) (*SrvScenario, int) {
 					c = 8 + t.Choose(len(r.Frame)-8)
 				}
 				plan.Writes = append(plan.Writes, c, len(r.Frame)-c)
-				plan.Gaps = append(plan.Gaps, time.Duration(t.Choose(3))*time.Millisecond, time.Duration(t.Choose(8000))*time.Microsecond)
+				g2 := time.Duration(t.Choose(8000)) * time.Microsecond
+				if t.Chance(1, 10) {
+					g2 = time.Duration(1200+t.Choose(2500)) * time.Millisecond // a slow sender: seconds between the two pieces (far below the idle limit)
+				}
+				plan.Gaps = append(plan.Gaps, time.Duration(t.Choose(3))*time.Millisecond, g2)
 			} else {
 				plan.Writes = append(plan.Writes, len(r.Frame))
 				plan.Gaps = append(plan.Gaps, time.Duration(t.Choose(3))*time.Millisecond)
